@@ -1,0 +1,149 @@
+//go:build verif
+
+package inmem
+
+// Contracts for the deductive verifier in /verif (gocv). Comment-only file,
+// compiled only under the `verif` build tag.
+//
+// clock  : ghost wall clock (last value of time.Now()); issued : versions handed out by NewID.
+// A record is expired at time t if it has an expiry strictly before t. All
+// postconditions are stated over the LIVE view (present and not expired at the
+// clock value the call ends with), which is what "an expired record is
+// indistinguishable from a deleted one" means (C06).
+
+//@ monitor service lock guards recs verChange
+
+//@ pred expiredAt(r kvs.Record, t time.Time) = r.ExpiresAt != nil && before(*r.ExpiresAt, t)
+//@ pred (s *service) wf() = s != nil && s.recs != nil && s.verChange != nil &&
+//@      forall(k, string, has(s.recs, k) ==> s.recs[k].Key == k && in(s.recs[k].Version, issued)) &&
+//@      forall(k, string, has(s.verChange, k) ==> s.verChange[k] != nil && s.verChange[k].done != nil && !closed(s.verChange[k].done)) &&
+//@      forall(k, string, forall(j, string, has(s.verChange, k) && has(s.verChange, j) && k != j ==> s.verChange[k].done != s.verChange[j].done))
+// key k was live (present, not expired) in the pre-state, judged at the final clock value
+//@ pred (s *service) wasLive(k string) = old(has(s.recs, k)) && !expiredAt(old(s.recs[k]), clock)
+// every key other than k is untouched
+//@ pred (s *service) othersKept(k string) = forall(j, string, j != k ==> has(s.recs, j) == old(has(s.recs, j)) && (has(s.recs, j) ==> s.recs[j] == old(s.recs[j])))
+// nothing at all changed in the record table
+//@ pred (s *service) allKept() = forall(j, string, has(s.recs, j) == old(has(s.recs, j)) && (has(s.recs, j) ==> s.recs[j] == old(s.recs[j])))
+// k is stored exactly as given, under the fresh version v
+//@ pred (s *service) stored(k string, rec kvs.Record, v string) = has(s.recs, k) && s.recs[k].Key == k && s.recs[k].Value == rec.Value && s.recs[k].ExpiresAt == rec.ExpiresAt && s.recs[k].Version == v && !in(v, old(issued)) && in(v, issued)
+
+//@ func (s *service) notifyWaiters(key string)
+//@   inline
+//@ func (s *service) live(key string) (kvs.Record, bool)
+//@   inline
+
+//@ func New() kvs.Storage
+//@   props C02 C03 C06
+//@   ensures r0 != nil && fresh(r0)
+
+//@ func (s *service) Create(ctx context.Context, record kvs.Record) (string, error)
+//@   props C02 C03 C06
+//@   requires s.wf() && ctx != nil
+//@   modifies s.recs[*], s.verChange[*], issued, clock
+//@   ensures s.wf() && s.othersKept(record.Key)
+//@   ensures ctx.err != nil ==> r1 == ctx.err && r0 == ""
+//@   ensures ctx.err == nil && s.wasLive(record.Key) ==> errIs(r1, errors.ErrExist) && r0 == old(s.recs[record.Key].Version) && has(s.recs, record.Key) && s.recs[record.Key] == old(s.recs[record.Key])
+//@   ensures ctx.err == nil && !s.wasLive(record.Key) ==> r1 == nil && s.stored(record.Key, record, r0)
+
+//@ func (s *service) Get(ctx context.Context, key string) (kvs.Record, error)
+//@   props C02 C03 C06
+//@   requires s.wf()
+//@   modifies s.recs[*], s.verChange[*], clock
+//@   ensures s.wf() && s.othersKept(key)
+//@   ensures s.wasLive(key) ==> r1 == nil && r0 == old(s.recs[key]) && has(s.recs, key) && s.recs[key] == old(s.recs[key])
+//@   ensures !s.wasLive(key) ==> errIs(r1, errors.ErrNotExist) && r0 == zero(kvs.Record)
+//@   ensures [C06] old(has(s.recs, key)) && !has(s.recs, key) ==> expiredAt(old(s.recs[key]), clock)
+
+//@ func (s *service) Put(ctx context.Context, record kvs.Record) (kvs.Record, error)
+//@   props C02 C03 C06
+//@   requires s.wf()
+//@   modifies s.recs[*], s.verChange[*], issued
+//@   ensures s.wf() && s.othersKept(record.Key)
+//@   ensures r1 == nil && s.stored(record.Key, record, r0.Version) && r0 == s.recs[record.Key]
+
+//@ func (s *service) CasByVersion(ctx context.Context, record kvs.Record) (kvs.Record, error)
+//@   props C02 C03 C06
+//@   requires s.wf()
+//@   modifies s.recs[*], s.verChange[*], issued, clock
+//@   ensures s.wf() && s.othersKept(record.Key)
+//@   ensures !s.wasLive(record.Key) ==> errIs(r1, errors.ErrNotExist)
+//@   ensures s.wasLive(record.Key) && old(s.recs[record.Key].Version) != record.Version ==> errIs(r1, errors.ErrConflict) && has(s.recs, record.Key) && s.recs[record.Key] == old(s.recs[record.Key])
+//@   ensures s.wasLive(record.Key) && old(s.recs[record.Key].Version) == record.Version ==> r1 == nil && s.stored(record.Key, record, r0.Version) && r0 == s.recs[record.Key]
+//@   ensures r1 != nil ==> r0 == zero(kvs.Record)
+//@   ensures [C06] old(has(s.recs, record.Key)) && !has(s.recs, record.Key) ==> expiredAt(old(s.recs[record.Key]), clock)
+
+//@ func (s *service) Delete(ctx context.Context, key string) error
+//@   props C02 C03 C06
+//@   requires s.wf()
+//@   modifies s.recs[*], s.verChange[*], clock
+//@   ensures s.wf() && s.othersKept(key) && !has(s.recs, key)
+//@   ensures s.wasLive(key) ==> r0 == nil
+//@   ensures !s.wasLive(key) ==> errIs(r0, errors.ErrNotExist)
+
+// key k occurs among records[lo:hi]
+//@ pred keyIn(records []kvs.Record, lo int, hi int, k string) = exists(i, lo, hi, records[i].Key == k)
+
+//@ func (s *service) PutMany(ctx context.Context, records []kvs.Record) error
+//@   props C02 C03 C06
+//@   requires s.wf()
+//@   modifies s.recs[*], s.verChange[*], issued
+//@   ensures r0 == nil && s.wf()
+//@   ensures forall(i, 0, len(records), has(s.recs, records[i].Key) && !in(s.recs[records[i].Key].Version, old(issued)))
+//@   ensures forall(i, 0, len(records), !keyIn(records, i+1, len(records), records[i].Key) ==> s.recs[records[i].Key].Value == records[i].Value && s.recs[records[i].Key].ExpiresAt == records[i].ExpiresAt)
+//@   ensures forall(k, string, !keyIn(records, 0, len(records), k) ==> has(s.recs, k) == old(has(s.recs, k)) && (has(s.recs, k) ==> s.recs[k] == old(s.recs[k])))
+//@   loop 1
+//@     invariant s.wf() && 0 - 1 <= rangeindex && rangeindex <= len(records) - 1 && records == records0
+//@     invariant forall(v, string, in(v, old(issued)) ==> in(v, issued))
+//@     invariant forall(i, 0, rangeindex + 1, has(s.recs, records[i].Key) && !in(s.recs[records[i].Key].Version, old(issued)))
+//@     invariant forall(i, 0, rangeindex + 1, !keyIn(records, i+1, rangeindex + 1, records[i].Key) ==> s.recs[records[i].Key].Value == records[i].Value && s.recs[records[i].Key].ExpiresAt == records[i].ExpiresAt)
+//@     invariant forall(k, string, !keyIn(records, 0, rangeindex + 1, k) ==> has(s.recs, k) == old(has(s.recs, k)) && (has(s.recs, k) ==> s.recs[k] == old(s.recs[k])))
+//@     decreases len(records) - rangeindex
+
+//@ func (s *service) GetMany(ctx context.Context, keys ...string) ([]*kvs.Record, error)
+//@   props C02 C03 C06
+//@   requires s.wf()
+//@   modifies s.recs[*], s.verChange[*], clock
+//@   ensures r1 == nil && s.wf() && len(r0) == len(keys) && fresh(r0)
+//@   ensures forall(i, 0, len(keys), r0[i] != nil ==> old(has(s.recs, keys[i])) && *r0[i] == old(s.recs[keys[i]]) && !expiredAt(old(s.recs[keys[i]]), old(clock)))
+//@   ensures forall(i, 0, len(keys), r0[i] == nil ==> !old(has(s.recs, keys[i])) || expiredAt(old(s.recs[keys[i]]), clock))
+//@   ensures forall(k, string, has(s.recs, k) ==> old(has(s.recs, k)) && s.recs[k] == old(s.recs[k]))
+//@   ensures [C06] forall(k, string, old(has(s.recs, k)) && !has(s.recs, k) ==> expiredAt(old(s.recs[k]), clock))
+//@   loop 1
+//@     invariant s.wf() && 0 - 1 <= rangeindex && rangeindex <= len(keys) - 1 && keys == keys0 && !before(clock, old(clock))
+//@     invariant len(res) == len(keys) && fresh(res) && off(res) == 0
+//@     invariant forall(i, rangeindex + 1, len(keys), res[i] == nil)
+//@     invariant forall(i, 0, rangeindex + 1, res[i] != nil ==> fresh(res[i]) && old(has(s.recs, keys[i])) && *res[i] == old(s.recs[keys[i]]) && !expiredAt(old(s.recs[keys[i]]), old(clock)))
+//@     invariant forall(i, 0, rangeindex + 1, res[i] == nil ==> !old(has(s.recs, keys[i])) || expiredAt(old(s.recs[keys[i]]), clock))
+//@     invariant forall(k, string, has(s.recs, k) ==> old(has(s.recs, k)) && s.recs[k] == old(s.recs[k]))
+//@     invariant forall(k, string, old(has(s.recs, k)) && !has(s.recs, k) ==> expiredAt(old(s.recs[k]), clock))
+//@     decreases len(keys) - rangeindex
+
+//@ pred inSlice(xs []string, k string) = exists(i, 0, len(xs), xs[i] == k)
+//@ pred nodup(xs []string) = forall(i, 0, len(xs), forall(j, i + 1, len(xs), xs[i] != xs[j]))
+
+//@ func (s *service) ListKeys(ctx context.Context, pattern string) (iterable.Iterator[string], error)
+//@   props C02 C03 C06
+//@   requires s.wf()
+//@   modifies clock
+//@   ensures s.wf() && s.allKept()
+//@   ensures r1 == nil ==> r0 != nil && typeIs(r0, *keysIterator) && fresh(r0) && nodup(cast(*keysIterator, r0).res)
+//@   ensures r1 == nil ==> forall(i, 0, len(cast(*keysIterator, r0).res), has(s.recs, cast(*keysIterator, r0).res[i]) && !expiredAt(s.recs[cast(*keysIterator, r0).res[i]], clock) && globMatch(compiled(pattern), cast(*keysIterator, r0).res[i]))
+//@   ensures r1 == nil ==> forall(k, string, has(s.recs, k) && !expiredAt(s.recs[k], clock) && globMatch(compiled(pattern), k) ==> inSlice(cast(*keysIterator, r0).res, k))
+//@   loop 1
+//@     invariant s.wf() && s.allKept() && g == compiled(pattern) && now == clock
+//@     invariant forall(k, string, rangeVisited(k) ==> has(s.recs, k))
+//@     invariant forall(i, 0, len(res), rangeVisited(res[i]) && !expiredAt(s.recs[res[i]], clock) && globMatch(g, res[i]))
+//@     invariant forall(k, string, rangeVisited(k) && !expiredAt(s.recs[k], clock) && globMatch(g, k) ==> inSlice(res, k))
+//@     invariant nodup(res) && fresh(res)
+
+//@ func (k *keysIterator) HasNext() bool
+//@   props C03
+//@   requires k != nil
+//@   ensures r0 == (len(k.res) > 0)
+
+//@ func (k *keysIterator) Next() (string, bool)
+//@   props C03
+//@   requires k != nil
+//@   modifies k.res
+//@   ensures old(len(k.res)) > 0 ==> r1 && r0 == old(k.res[0]) && len(k.res) == old(len(k.res)) - 1 && forall(i, 0, len(k.res), k.res[i] == old(k.res[i + 1]))
+//@   ensures old(len(k.res)) == 0 ==> !r1 && r0 == "" && len(k.res) == 0
